@@ -165,11 +165,16 @@ func (m *UnboundedFairMailbox) Enqueue(msg *ReceiveContext) error {
 	_ = sq.mailbox.Enqueue(msg)
 	atomic.AddInt64(&m.length, 1)
 
-	if pending := atomic.AddInt64(&sq.pending, 1); pending == 1 {
-		// transition from empty -> non-empty, try to activate sender
-		if sq.active.CompareAndSwap(false, true) {
-			m.active.enqueue(sq)
-		}
+	atomic.AddInt64(&sq.pending, 1)
+
+	// the message is linked: make sure the sender is (or becomes) active. Keying
+	// the activation on the flag rather than on the empty -> non-empty
+	// transition of pending also covers a producer that was descheduled between
+	// swapping the sub-queue tail and linking its node: a sibling producer may
+	// have taken pending to 1 and activated the sender, and the consumer may
+	// have found the sub-queue (still) empty and deactivated it meanwhile.
+	if !sq.active.Load() && sq.active.CompareAndSwap(false, true) {
+		m.active.enqueue(sq)
 	}
 	return nil
 }
@@ -191,8 +196,13 @@ func (m *UnboundedFairMailbox) Dequeue() (msg *ReceiveContext) {
 
 	msg = sq.mailbox.Dequeue()
 	if msg == nil {
-		// per‑sender queue was drained concurrently; mark inactive
+		// per‑sender queue was drained concurrently; mark inactive, then look
+		// again: a producer may have linked a message and read the flag while it
+		// was still set, in which case nobody else would re-activate the sender
 		sq.active.Store(false)
+		if !sq.mailbox.IsEmpty() && sq.active.CompareAndSwap(false, true) {
+			m.active.enqueue(sq)
+		}
 		return
 	}
 
